@@ -17,6 +17,7 @@ EDIT_KINDS = ['d_set', 'd_add_o', 'd_add_p', 'd_set_o', 'd_set_p', 'd_rm_o', 'd_
               'd_union_upd', 'd_inter_upd', 'd_getitem', 'd_set_int']
 DERIVE_KINDS = ['d_copy', 'd_transposed', 'd_inverted', 'd_union', 'd_inter', 'd_take',
                 'd_ctx_roundtrip', 'd_fresh']
+CTX_KINDS = ['c_definition']
 OTHER_KINDS = ['d_new', 'd_drop', 'set_order']
 
 
@@ -41,7 +42,7 @@ def _names(rng, cfg):
 
 
 def _config(rng, tier):
-    kinds = EDIT_KINDS + DERIVE_KINDS + OTHER_KINDS
+    kinds = EDIT_KINDS + DERIVE_KINDS + OTHER_KINDS + CTX_KINDS
     weights = {k: rng.choice([0, 1, 1, 2, 3, 5]) for k in kinds}
     weights['d_new'] = rng.choice([1, 2])
     weights['set_order'] = rng.choice([0, 1, 2])
@@ -52,7 +53,7 @@ def _config(rng, tier):
             'n_prop_names': rng.randint(8, 14) if big else rng.randint(2, 5),
             'n_shared': rng.choice([0, 0, 1, 2]),
             'long_names': rng.random() < 0.2,
-            'n_events': rng.randint(1, 60 if tier == 'quick' else 120),
+            'n_events': rng.randint(150, 400) if rng.random() < 0.02 else rng.randint(1, 60 if tier == 'quick' else 120),
             'simset': rng.random() < 0.5,
             'weights': weights}
 
@@ -125,7 +126,9 @@ def generate(rng, seed, run, tier, xmode=False):
                 if rng.random() < 0.5:
                     props = props + rng.sample(props, min(len(props), rng.randint(1, 3)))
             rng.shuffle(objs)
-            if r > 0.8:
+            if r > 0.95:
+                events.append(['x_format', rng.choice(['nope', 'CSV2', 'tablex', ''])])
+            elif r > 0.8:
                 # serialized form with several required keys missing / wrong
                 d = {'objects': objs, 'properties': props, 'context': [[] for _ in objs]}
                 for key in rng.sample(sorted(d), rng.randint(1, 3)):
@@ -140,6 +143,9 @@ def generate(rng, seed, run, tier, xmode=False):
             continue
         if kind == 'd_new' or not live:
             ev = ['d_new', rng.randrange(n_slots), *triple()]
+        elif kind == 'c_definition':
+            # the same live Context asked for its definition again (earlier results may have been edited)
+            ev = ['c_definition', rng.randrange(8), rng.randrange(n_slots)]
         elif kind == 'set_order':
             ev = ['set_order', rng.randrange(0, 6)]
         elif kind == 'd_drop':
@@ -232,8 +238,10 @@ def generate(rng, seed, run, tier, xmode=False):
 def _model_apply(models, ev):
     """Apply ``ev`` to the list of slot models; returns (ret, dst) or raises Rejected."""
     kind = ev[0]
-    if kind in ('set_order', 'x_ctx', 'x_def', 'x_fromdict'):
+    if kind in ('set_order', 'x_ctx', 'x_def', 'x_fromdict', 'x_format'):
         return None
+    if kind == 'c_definition':
+        return None   # handled by the executor (needs the live contexts)
     if kind == 'd_new':
         _, s, objs, props, bools = ev
         models[s] = None
@@ -337,6 +345,7 @@ def execute(plan, rec):
     defs = [None] * n_slots
     models = [None] * n_slots
     groups = _Groups(n_slots)
+    ctxs = []     # live Context objects with the triple they were built from
     use_simset = bool(cfg.get('simset'))
     if use_simset:
         seams.install_simset()
@@ -422,6 +431,33 @@ def execute(plan, rec):
         rec.begin(index, ev)
         kind = ev[0]
         rec.sched_step(kind, ev[1] if len(ev) > 1 and isinstance(ev[1], int) else '')
+        if kind == 'c_definition':
+            if not ctxs:
+                rec.log('noop')
+                continue
+            ctx, want = ctxs[ev[1] % len(ctxs)]
+            dst = ev[2]
+            out = call(ctx.definition)
+            okv = out.ok and isinstance(out.value, Definition)
+            rec.check('C14.ctx_def_inverse',
+                      okv and all(out.value is not x for x in defs)
+                      and (tuple(out.value.objects), tuple(out.value.properties), [tuple(r) for r in out.value.bools]) == want,
+                      lambda: f'context.definition() on a live context built from {want!r} gives {out.text()[:400]}')
+            now = call(lambda: (ctx.objects, ctx.properties, ctx.bools))
+            rec.check('C14.ctx_unchanged', now.ok and now.value == want,
+                      lambda: f'a live context built from {want!r} now reports {now.text()[:400]}')
+            if okv and (tuple(out.value.objects), tuple(out.value.properties), [tuple(r) for r in out.value.bools]) == want:
+                defs[dst] = out.value
+                models[dst] = Table.fromtriple(*want)
+                groups.fresh(dst)
+            rec.log(out.text() if not out.ok else 'ok')
+            audit(dst, dsts=(dst,))
+            continue
+        if kind == 'x_format':
+            out = call(Context.fromstring, 'x', ev[1])
+            out2 = call(lambda: Context(['o'], ['p'], [(True,)]).tostring(ev[1]))
+            rec.log(out.text() + ' / ' + out2.text())
+            continue
         if kind == 'x_ctx':
             out = call(Context, ev[1], ev[2], [tuple(False for _ in ev[2]) for _ in ev[1]])
             rec.log(out.text())
@@ -537,7 +573,7 @@ def execute(plan, rec):
             out = call(lambda d=d: Definition(*d))
             dsts = (ev[2],)
         elif kind == 'd_ctx_roundtrip':
-            out = _ctx_roundtrip(rec, d, models[s], defs, models, Context, Definition)
+            out = _ctx_roundtrip(rec, d, models[s], defs, models, Context, Definition, ctxs)
             if out is None:
                 rec.log('invalid-context ' + call(lambda d=d: Context(*d)).text())
                 audit(s)
@@ -635,7 +671,7 @@ def execute(plan, rec):
     return rec
 
 
-def _ctx_roundtrip(rec, d, model, defs, models, Context, Definition):
+def _ctx_roundtrip(rec, d, model, defs, models, Context, Definition, ctxs=None):
     """Context(*d).definition() and the Context<->Definition agreement clauses."""
     valid = model.context_valid()
     c = call(lambda: Context(*d))
@@ -645,6 +681,10 @@ def _ctx_roundtrip(rec, d, model, defs, models, Context, Definition):
         rec.check('C14.ctx_def_inverse', False, lambda: f'Context(*d) raised {c.text()} for valid {model.triple()!r}')
         return None
     ctx = c.value
+    if ctxs is not None:
+        if len(ctxs) >= 4:
+            del ctxs[0]
+        ctxs.append((ctx, model.triple()))
     back = call(ctx.definition)
     rec.check('C14.ctx_def_inverse',
               back.ok and (back.value == d) is True and (d == back.value) is True
@@ -688,6 +728,13 @@ def _ctx_roundtrip(rec, d, model, defs, models, Context, Definition):
         a, b = call(f, ctx), call(f, d)
         rec.check('C14.ctx_def_agree', a.ok and b.ok and a.value == b.value,
                   lambda: f'{name}: context {a.text()} definition {b.text()}')
+    call(repr, ctx)
+    for enc in ('utf-8', 'utf-16', 'latin-1', 'utf-32'):
+        a, b = call(ctx.crc32, enc), call(lambda enc=enc: d.crc32(encoding=enc))
+        if not a.ok and not b.ok:
+            continue     # labels not encodable: both sides refuse
+        rec.check('C14.ctx_def_agree', a.ok and b.ok and a.value == b.value,
+                  lambda: f'crc32({enc}): context {a.text()} definition {b.text()}')
     n_true = sum(sum(r) for r in want[2])
     import fractions
     rec.check('C14.ctx_def_agree',
